@@ -13,6 +13,7 @@ import (
 	"gedverif/internal/load"
 	"gedverif/internal/oblig"
 	"gedverif/internal/relang"
+	"gedverif/internal/su"
 
 	"golang.org/x/tools/go/ssa"
 )
@@ -97,6 +98,9 @@ func C04(p *load.Prog, r *oblig.Run) {
 	r.Rule("R04.c", "canonical print re-parses: constraint words, 3-letter months and the range format are accepted and map back", 20)
 	r.Rule("R04.r", "range pattern: between/and word groups are exactly the documented words", 7)
 	r.Rule("R04.m", "the month-name lookup in parseDateParts handles a word that is not in the table", 1)
+	r.Rule("R04.v", "the calendar validity check applies whenever a day was written: its branch tests the day capture group itself (not the parsed number)", 1)
+	r.Rule("R04.q", "the range pattern splits 'between X and Y' into exactly X and Y for every keyword pair and every month spelling in either date", 500)
+	r.Rule("R04.s", "DateRange.String and DateNode.String choose the single-date form by structural identity of the two ends (Date.Is)", 2)
 
 	pk := p.ByPath[load.PkgRoot]
 	parse := p.Func(load.PkgRoot, "parseDateParts")
@@ -314,6 +318,8 @@ func C04(p *load.Prog, r *oblig.Run) {
 
 	// R04.m: checked month lookup
 	checkMonthLookup(p, r, parse)
+	checkDayValidity(p, r, parse, call, cgroup+1)
+	checkSingleFormSelection(p, r)
 
 	// R04.c canonical print
 	cstr := p.Method(load.PkgRoot, "DateConstraint", "String")
@@ -402,6 +408,30 @@ func C04(p *load.Prog, r *oblig.Run) {
 			disp := strings.ReplaceAll(w, relang.Wild, "<any char>")
 			r.Add("R04.r", "range word "+disp, rpos, "undocumented range word").Fail(fmt.Sprintf("the range pattern accepts the undocumented keyword %q (e.g. %q is read as a range)", disp,
 				strings.ReplaceAll(w, relang.Wild, "x")+" 1900 and 1901"))
+		}
+	}
+	// R04.q covering table for the range pattern
+	for _, bw := range docWords[0] {
+		for _, aw := range docWords[1] {
+			for _, m := range c04Months {
+				for pos := 0; pos < 2; pos++ {
+					d1, d2 := "3 "+m+" 1900", "Abt. 1901"
+					if pos == 1 {
+						d1, d2 = "Bef. 1899", "17 "+strings.ToUpper(m[:1])+m[1:]+" 1900"
+					}
+					sentence := bw + " " + d1 + " " + aw + " " + d2
+					o := r.Add("R04.q", "range "+sentence, rpos, "documented range "+sentence)
+					mm := rre.FindStringSubmatch(sentence)
+					switch {
+					case mm == nil:
+						o.Fail("the range pattern rejects the documented range " + sentence)
+					case mm[dgs[0]] != d1 || mm[dgs[1]] != d2:
+						o.Fail(fmt.Sprintf("the range pattern splits %q into %q and %q instead of %q and %q", sentence, mm[dgs[0]], mm[dgs[1]], d1, d2))
+					default:
+						o.OK("split into the two written dates")
+					}
+				}
+			}
 		}
 	}
 	// canonical range print formats: every constant format with two %s verbs used by DateRange.String / DateNode.String
@@ -582,4 +612,141 @@ func wildMatch(lang []string, w string) bool {
 		}
 	}
 	return false
+}
+
+// checkDayValidity: parseDateParts validates day/month/year with time.Parse;
+// the branch that turns its error into an invalid date must be conditioned on
+// the day capture group being non-empty (the string the user wrote), not on
+// the parsed number - "0"/"00" parse to the same 0 that means "no day".
+func checkDayValidity(p *load.Prog, r *oblig.Run, parse *ssa.Function, sub *ssa.Call, dayGroup int) {
+	var tp *ssa.Call
+	for _, c := range su.Calls(parse) {
+		if su.CalleeIs(c.Common(), "time", "Parse") {
+			tp, _ = c.(*ssa.Call)
+		}
+	}
+	o := r.Add("R04.v", "calendar validity branch in parseDateParts", p.Pos(parse.Pos()), "condition under which the time.Parse error invalidates the date")
+	if tp == nil {
+		o.Fail("parseDateParts no longer validates the day against the calendar (no time.Parse call): calendar-impossible days are accepted")
+		return
+	}
+	o.Pos = p.Pos(tp.Pos())
+	var errV ssa.Value
+	for _, ref := range *tp.Referrers() {
+		if ex, ok := ref.(*ssa.Extract); ok && ex.Index == 1 {
+			errV = ex
+		}
+	}
+	if errV == nil {
+		o.Fail("the error of the calendar validation (time.Parse) is discarded")
+		return
+	}
+	// find the If on errV != nil; collect the other conditions on the paths into its true side
+	found := false
+	for _, b := range parse.Blocks {
+		iff, ok := b.Instrs[len(b.Instrs)-1].(*ssa.If)
+		if !ok {
+			continue
+		}
+		bo, ok := iff.Cond.(*ssa.BinOp)
+		if !ok || bo.X != errV {
+			continue
+		}
+		found = true
+		// the && companion: the block is reached from a block ending in an If on the day group (short-circuit), or is the entry of the chain
+		companion := false
+		wrongCompanion := ""
+		for _, pb := range b.Preds {
+			piff, ok := pb.Instrs[len(pb.Instrs)-1].(*ssa.If)
+			if !ok {
+				continue
+			}
+			pbo, ok := piff.Cond.(*ssa.BinOp)
+			if !ok {
+				continue
+			}
+			derivesFromGroup := func(v ssa.Value) bool {
+				if base, k, ok := su.ElemOf(v); ok && base == ssa.Value(sub) && int(k) == dayGroup {
+					return true
+				}
+				if c, ok := v.(*ssa.Call); ok {
+					if bi, ok := c.Call.Value.(*ssa.Builtin); ok && bi.Name() == "len" {
+						if base, k, ok := su.ElemOf(c.Call.Args[0]); ok && base == ssa.Value(sub) && int(k) == dayGroup {
+							return true
+						}
+					}
+				}
+				return false
+			}
+			if derivesFromGroup(pbo.X) || derivesFromGroup(pbo.Y) {
+				companion = true
+			} else {
+				wrongCompanion = pbo.String()
+			}
+		}
+		if len(b.Preds) == 0 || (b == parse.Blocks[0]) {
+			companion = true
+		}
+		switch {
+		case companion:
+			o.OK("the error is consulted whenever the day capture group is non-empty")
+		case wrongCompanion != "":
+			o.Fail("the calendar validation error is only consulted under the condition " + wrongCompanion + ", which is not a test of the written day group: a written day such as \"0\" or \"00\" (parsed to the same 0 as 'no day') escapes validation and '0 Jan 1900' silently becomes 'Jan 1900'")
+		default:
+			// unconditional use of the error is also fine when no day means day 1 in the probe; accept
+			o.OK("the error is consulted unconditionally")
+		}
+	}
+	if !found {
+		o.Fail("the error of the calendar validation (time.Parse) never steers a branch")
+	}
+}
+
+// checkSingleFormSelection: the two canonical printers must select the
+// single-date form with the structural comparison Date.Is.
+func checkSingleFormSelection(p *load.Prog, r *oblig.Run) {
+	is := p.Method(load.PkgRoot, "Date", "Is")
+	for _, fn := range []*ssa.Function{p.Method(load.PkgRoot, "DateRange", "String"), p.Method(load.PkgRoot, "DateNode", "String")} {
+		if fn == nil {
+			continue
+		}
+		o := r.Add("R04.s", "single-form test in "+load.FuncName(fn), p.Pos(fn.Pos()), "predicate that selects the single-date print form")
+		if is == nil {
+			o.Unknown("Date.Is not found")
+			continue
+		}
+		// delegation to the sibling printer is fine
+		delegates := false
+		for _, c := range su.Calls(fn) {
+			if cal := c.Common().StaticCallee(); cal != nil && cal != fn && cal.Name() == "String" && cal.Signature.Recv() != nil {
+				if n := load.NamedOf(cal.Signature.Recv().Type()); n != nil && (n.Obj().Name() == "DateRange" || n.Obj().Name() == "DateNode") {
+					delegates = true
+				}
+			}
+		}
+		var sel *ssa.Function
+		for _, b := range fn.Blocks {
+			iff, ok := b.Instrs[len(b.Instrs)-1].(*ssa.If)
+			if !ok {
+				continue
+			}
+			if c, ok := iff.Cond.(*ssa.Call); ok {
+				if cal := c.Call.StaticCallee(); cal != nil && cal.Signature.Recv() != nil {
+					if n := load.NamedOf(cal.Signature.Recv().Type()); n != nil && n.Obj().Name() == "Date" {
+						sel = cal
+					}
+				}
+			}
+		}
+		switch {
+		case sel == is:
+			o.OK("Date.Is")
+		case sel == nil && delegates:
+			o.OK("delegates to the sibling printer")
+		case sel == nil:
+			o.Unknown("no Date predicate selects the print form")
+		default:
+			o.Fail("the single-date print form is selected with Date." + sel.Name() + " instead of the structural Date.Is: a range whose ends merely could be the same date (\"from 3 Sep 1900 to Bef. Mar 1950\") prints as its start only and does not parse back to the same end date")
+		}
+	}
 }
